@@ -165,7 +165,7 @@ def _(c, a): return oP([1, 1j, -1, -1j][c] * P(a))
 def _(a): return oP(-P(a))
 @op('combine')
 def _(n, C, rows):
-    l = PL(rows, 2 * n)
+    l = RCV(PL(rows, 2 * n))
     gs, ps = U.pauli_combine(GS(C, len(rows)), l.gs, l.ps)
     return oRows(gs, ps)
 @op('transform')
@@ -212,11 +212,11 @@ def _(big, small, m): return oPL(RCV(CM(big)).embed(CM(small), np.array(m, dtype
 def _(gen): return oPL(ST.clifford_rotation_map(P(gen)))
 @op('map_to_state')
 def _(m):
-    c = CM(m)
+    c = RCV(CM(m))
     return oRows(*U.map_to_state(c.gs, c.ps))
 @op('state_to_map')
 def _(m):
-    c = CM(m)
+    c = RCV(CM(m))
     return oRows(*U.state_to_map(c.gs, c.ps))
 @op('expect')
 def _(t, obs):
@@ -224,12 +224,12 @@ def _(t, obs):
     return [iv(v) for v in s.expect(PL(obs, s.gs.shape[1]))]
 @op('vexpect')
 def _(t, obs):
-    s = STATE(t)
+    s = RCV(STATE(t))
     o = PL(obs, s.gs.shape[1])
     return [iv(v) for v in U.vectorizable_stabilizer_expect(s.gs, s.ps, o.gs, o.ps, s.r)]
 @op('project')
 def _(t, gos):
-    s = STATE(t)
+    s = RCV(STATE(t))
     gs, r = U.stabilizer_project(s.gs, GS(gos, s.gs.shape[1]), s.r)
     s.gs, s.r = gs, r
     return oST(s)
